@@ -21,19 +21,19 @@ func init() {
 	fw.Register(&fw.Check{
 		ID:    "C19",
 		Level: "fault_enumeration",
-		Rule: "case = (scenario, fault kind); scenarios: count vectors (1,1,1,1,1) and (2,2,2,2,2) in quick, plus (3,3,3,3,3), (3,1,0,2,3), (2,2,0,0,2) and two further AMF-choice variations in thorough; fault kinds: close + 8 garbage variants. " +
+		Rule: "case = (scenario, fault kind); scenarios: count vectors (1,1,1,1,1) and (2,2,2,2,2) in quick, plus (3,3,3,3,3), (3,1,0,2,3), (2,2,0,0,2) and two further AMF-choice variations in thorough; fault kinds: close (instead of message k), close-after (right after sending message k, for every k < M after which the emulator still has to write) + 8 garbage variants. " +
 			"Each case runs the baseline under strace and then one emulator process per fault index k in [0,R) (exhaustive over k). Verdict per faulted run: exit status must be non-zero, no completion banner, not blocked: " +
 			"'blocked' = after the watchdog (nominal duration of the whole scenario + 20 s) two samples of /proc/<pid>/task/*/syscall three seconds apart both show recvmsg on the N2 descriptor while the AMF is quiescent. " +
-			"Two extra cases per kind drive EstablishPDU through the procedure driver with the fault on its own reply. distinct = hash(scenario, kind); non-trivial = at least 2 faulted runs",
+			"One extra case per kind drives EstablishPDU through the procedure driver with the fault on its own reply. distinct = hash(scenario, kind); non-trivial = at least 2 faulted runs",
 		Assumptions: []string{
 			"faults are injected at message boundaries of the downlink stream on an AF_UNIX seqpacket socket; SCTP-specific events (association restart, partial delivery) cannot be produced",
 			"R is measured (strace), not modelled; indices k >= R (the unread tail left by the fire-and-forget release) are outside the property and reported only",
 		},
 		N: func(t string) int {
 			if t == "thorough" {
-				return 7*9 + 9
+				return 7*10 + 10
 			}
-			return 2*9 + 9
+			return 2*10 + 10
 		},
 		InProcess:       true,
 		Workers:         func(string) int { return 5 },
@@ -43,7 +43,7 @@ func init() {
 	})
 }
 
-var c19Kinds = append([]string{"close"}, refamf.GarbageKinds...)
+var c19Kinds = append([]string{"close", "close-after"}, refamf.GarbageKinds...)
 
 var c19Scenarios = [][5]int{{1, 1, 1, 1, 1}, {2, 2, 2, 2, 2}, {3, 3, 3, 3, 3}, {3, 1, 0, 2, 3}, {2, 2, 0, 0, 2}, {1, 1, 1, 1, 1}, {1, 1, 1, 1, 1}}
 
@@ -52,11 +52,11 @@ func runC19(c *fw.Case) (o fw.Outcome) {
 	if c.Thorough() {
 		nScen = 7
 	}
-	if c.Idx >= nScen*9 {
-		return c19Proc(c, c19Kinds[c.Idx-nScen*9])
+	if c.Idx >= nScen*10 {
+		return c19Proc(c, c19Kinds[c.Idx-nScen*10])
 	}
-	scen := c.Idx / 9
-	kind := c19Kinds[c.Idx%9]
+	scen := c.Idx / 10
+	kind := c19Kinds[c.Idx%10]
 	v := c19Scenarios[scen]
 	// the scenario (configuration + AMF choices) depends on the scenario number only, so that all kinds fault the same conversation
 	r := fw.CaseRand("C19-scenario", c.Seed, c.Tier, scen)
@@ -94,8 +94,34 @@ func runC19(c *fw.Case) (o fw.Outcome) {
 	var wg sync.WaitGroup
 	sem := make(chan struct{}, 8)
 	nf := 0
-	for k := 0; k < R; k++ {
-		if tags[k] == "after-registration-complete" {
+	// "close-after": the AMF closes right after SENDING message k. In scope for every k < M after which the emulator
+	// still has to write something (an uplink event follows it in the baseline history): its next write must fail.
+	uplinkFollows := make([]bool, M)
+	{
+		di, seenUp := M, false
+		for i := len(base.AMF.Events) - 1; i >= 0; i-- {
+			e := base.AMF.Events[i]
+			if e.Dir == "up" {
+				seenUp = true
+			} else if e.Dir == "down" {
+				di--
+				if di >= 0 && di < M {
+					uplinkFollows[di] = seenUp
+				}
+			}
+		}
+	}
+	limit := R
+	if kind == "close-after" {
+		limit = M
+	}
+	for k := 0; k < limit; k++ {
+		if kind == "close-after" {
+			if !uplinkFollows[k] {
+				o.Count("skipped_nothing_left_to_write", 1)
+				continue
+			}
+		} else if tags[k] == "after-registration-complete" {
 			o.Count("skipped_ignored_message", 1)
 			continue
 		}
